@@ -22,7 +22,10 @@ ASSUMPTIONS = ["reference ed25519 and canonical serializer"]
 def plan(tier, seed):
     n = 1600 if tier == "quick" else 40000
     shards = 12 if tier == "quick" else 32
-    return [{"kind": "sign", "count": n // shards} for _ in range(shards)]
+    specs = [{"kind": "sign", "count": n // shards} for _ in range(shards)]
+    for T in ([4] if tier == "quick" else [2, 4, 8, 16]):
+        specs.append({"kind": "threads", "threads": T, "count": 30 if tier == "quick" else 250})
+    return specs
 
 
 def edit_payload(v, rng):
@@ -312,7 +315,88 @@ def gen_case(rng):
     return {"kind": "sign", "payload": payload, "seeds": seeds, "pre": pre2, "rseed": rng.getrandbits(32)}
 
 
+def run_threads(spec, rec, lib):
+    """signer binding under schedules: threads signing DIFFERENT envelopes with DIFFERENT keys at the same time, followed by
+    ordinary sequential signing with the same key objects; every envelope must carry exactly its signer's RFC 8032
+    signature under its signer's public key, and verify with that key authorized"""
+    import threading
+
+    from ..monitors import sysmon
+
+    rng = random.Random(spec["seed"])
+    C, S, A = lib.common, lib.signing, lib.authentication
+    T = spec["threads"]
+    for rnd in range(spec["count"]):
+        ks = [gkeys.key(rng.randrange(30)) for _ in range(T)]
+        objs = [C.PrivateKey.from_bytes(k.seed) for k in ks]
+        per = 3
+        payloads = [[jsonvals.rand_payload(rng) for _ in range(per + 1)] for _ in range(T)]
+        envs = [[None] * (per + 1) for _ in range(T)]
+        errors = []
+        start = threading.Barrier(T)
+
+        def worker(t):
+            try:
+                start.wait()
+                for j in range(per):
+                    e = S.wrap_as_signable(payloads[t][j])
+                    S.sign_signable(e, objs[t])
+                    envs[t][j] = e
+            except BaseException as ex:  # noqa: BLE001
+                errors.append("%s: %s" % (type(ex).__name__, ex))
+
+        inj = sysmon.YieldInjector(lib.pkg_dir, random.Random(spec["seed"] * 1000 + rnd), prob=0.3)
+        with inj:
+            ths = [threading.Thread(target=worker, args=(t,)) for t in range(T)]
+            for th in ths:
+                th.start()
+            for th in ths:
+                th.join(300)
+        if any(th.is_alive() for th in ths):
+            rec.inconclusive_because("signing thread workload did not finish")
+            return
+        rec.count("context_switches_inside_library", inj.switches)
+        # afterwards, sequentially, with the same key objects (in a shuffled order)
+        order = list(range(T))
+        rng.shuffle(order)
+        for t in order:
+            try:
+                e = S.wrap_as_signable(payloads[t][per])
+                S.sign_signable(e, objs[t])
+                envs[t][per] = e
+            except Exception as ex:  # noqa: BLE001
+                errors.append("%s: %s" % (type(ex).__name__, ex))
+        case = {"kind": "sign_threads", "threads": T, "seeds": [k.seed.hex() for k in ks]}
+        rec.case("sign-threads|%d|%d" % (T, rnd))
+        if errors:
+            rec.violation("sign-under-threads/sign_signable/raised", "signing separate envelopes in %d threads raised %s" % (T, errors[0][:200]), case)
+            continue
+        for t in range(T):
+            for j in range(per + 1):
+                e = envs[t][j]
+                phase = "concurrent" if j < per else "sequential-after-threads"
+                rec.count("threaded_signings")
+                try:
+                    data = canonjson.canon(payloads[t][j])
+                except canonjson.Unsupported:
+                    continue
+                want = {ks[t].hex: {"signature": ed25519.sign(ks[t].seed, data).hex()}}
+                if e is None or e.get("signatures") != want:
+                    got = sorted((e or {}).get("signatures", {}))
+                    rec.violation("signer-binding/sign_signable/under-threads/%s" % phase,
+                                  "envelope signed with key %s.. (%s) carries entries under %s instead of exactly its signer's"
+                                  % (ks[t].hex[:8], phase, [g[:8] for g in got]), dict(case, which=[t, j]))
+                    break
+                o = boundary.call(lib, A.verify_signable, e, [ks[t].hex], 1)
+                if not o.accepted:
+                    rec.violation(boundary.mechanism("sign-then-verify", "verify_signable[after threaded signing]", "accept", o),
+                                  "envelope signed under threads does not verify with its signer authorized", dict(case, which=[t, j]))
+                    break
+
+
 def run_shard(spec, rec, lib):
+    if spec.get("kind") == "threads":
+        return run_threads(spec, rec, lib)
     rng = random.Random(spec["seed"])
     sp = probes.SignProbe(lib)
     for i in range(spec["count"]):
@@ -328,4 +412,7 @@ def run_shard(spec, rec, lib):
 
 
 def replay(case, rec, lib):
+    if case.get("kind") == "sign_threads":
+        print("schedule-dependent witness; re-running the signing thread workload")
+        return run_threads({"seed": 1, "threads": case.get("threads", 4), "count": 60}, rec, lib)
     check_case(case, rec, lib, probes.SignProbe(lib))
